@@ -145,9 +145,17 @@ func (l *lineSet) add(line string, c *check) int {
 }
 
 func (l *lineSet) pair(u *batch.UnitInfo, de bool, sidx int, key, kind string, x, y *values.Value) {
-	a := l.add("E "+key+" "+x.String()+" "+y.String(), &check{unit: u, sidx: sidx, what: "E", kind: kind, x: x, y: y, mirror: -1, de: de})
-	b := l.add("E "+key+" "+y.String()+" "+x.String(), &check{unit: u, sidx: sidx, what: "E", kind: kind + "(swapped)", x: y, y: x, mirror: a, de: de})
+	l.pairOp("E", u, de, sidx, key, kind, x, y)
+}
+
+// pairOp: op = "E" (two independently built objects) or "ES" (equal struct elements of containers shared)
+func (l *lineSet) pairOp(op string, u *batch.UnitInfo, de bool, sidx int, key, kind string, x, y *values.Value) {
+	a := l.add(op+" "+key+" "+x.String()+" "+y.String(), &check{unit: u, sidx: sidx, what: op, kind: kind, x: x, y: y, mirror: -1, de: de})
+	b := l.add(op+" "+key+" "+y.String()+" "+x.String(), &check{unit: u, sidx: sidx, what: op, kind: kind + "(swapped)", x: y, y: x, mirror: a, de: de})
 	l.checks[a].mirror = b
+	if op != "E" {
+		return
+	}
 	l.add("V "+key+" "+x.String()+" "+y.String(), &check{unit: u, sidx: sidx, what: "V", kind: kind, x: x, y: y, mirror: -1, de: de})
 }
 
@@ -245,7 +253,10 @@ func run(repo, dir string, seed uint64, nprog, nvalues int, keep bool) int {
 		if ui < ndirected {
 			for _, w := range directedWitnesses() {
 				key := fmt.Sprintf("%s:%d", u.Key, w.sidx)
-				if w.op == "E" {
+				if w.op == "ES" {
+					ls.pairOp("ES", u, de, w.sidx, key, "directed:"+w.note, w.x, w.y)
+					ls.pair(u, de, w.sidx, key, "directed:"+w.note+" (not shared)", w.x, w.y)
+				} else if w.op == "E" {
 					ls.pair(u, de, w.sidx, key, "directed:"+w.note, w.x, w.y)
 					if w.sidx == dD1 || w.sidx == dD0 {
 						ls.add("EA "+key+" "+w.x.String(), &check{unit: u, sidx: w.sidx, what: "EA", kind: "directed:shallow-copy", x: w.x, y: w.x, mirror: -1, de: de})
@@ -284,7 +295,7 @@ func run(repo, dir string, seed uint64, nprog, nvalues int, keep bool) int {
 		impl := ans
 		if c != nil && c.what == "V" {
 			// the `V` lines tie the Go oracle to the Lean specification: "implementation" = this harness' valEq
-			impl = boolStr((&spec{c.unit.Schema}).valEq(&idlgen.RType{Kind: idlgen.RStruct, Sidx: c.sidx}, c.x, c.y))
+			impl = boolStr((&spec{s: c.unit.Schema}).valEq(&idlgen.RType{Kind: idlgen.RStruct, Sidx: c.sidx}, c.x, c.y))
 		}
 		if strings.HasPrefix(line, "W ") {
 			impl = canonW(ans)
@@ -378,6 +389,9 @@ func goText(c *check) string {
 	switch c.what {
 	case "W":
 		return fmt.Sprintf("x := <%s %s>; x.Write(binaryProtocol)   // thriftgo -g go:%s", st.Name, c.x.String(), strings.Join(c.unit.Options, ","))
+	case "ES":
+		return fmt.Sprintf("x := <%s %s>; y := <%s %s>; every struct-typed element of a list/set/map of y whose description equals x's element at the same index/key IS x's element (same pointer); x.DeepEqual(y)   // thriftgo -g go:%s",
+			st.Name, c.x.String(), st.Name, c.y.String(), strings.Join(c.unit.Options, ","))
 	case "EI":
 		return fmt.Sprintf("x := <%s %s>; x.DeepEqual(x)", st.Name, c.x.String())
 	case "EA":
@@ -401,8 +415,28 @@ func idlOf(u *batch.UnitInfo) interface{} {
 func genOps(r *vl.Rng, u *batch.UnitInfo, de bool, sidx int, key string, v *values.Value, vcfg valgen.Config, ls *lineSet, out *vl.Out) {
 	s := u.Schema
 	rt := &idlgen.RType{Kind: idlgen.RStruct, Sidx: sidx}
-	// (1) a deep copy
+	// (1) a deep copy; the same with the equal struct elements of containers shared
 	ls.pair(u, de, sidx, key, "copy", v, v.Clone())
+	ls.pairOp("ES", u, de, sidx, key, "copy-shared", v, v.Clone())
+	// (1b) a later element of a container of structs differs; the elements before it are shared / nil on both sides
+	for _, nilLead := range []bool{false, true} {
+		if nilLead && !vcfg.NilElems {
+			continue
+		}
+		for rep := 0; rep < 2; rep++ {
+			x, y, ok := laterElement(r, s, sidx, v, nilLead)
+			if !ok {
+				out.Count(fmt.Sprintf("later-element.nosite.nil=%t", nilLead))
+				break
+			}
+			kind := "later-element"
+			if nilLead {
+				kind = "later-element-nil-lead"
+				ls.pair(u, de, sidx, key, kind, x, y)
+			}
+			ls.pairOp("ES", u, de, sidx, key, kind+"-shared", x, y)
+		}
+	}
 	// (2..) one mutation of each kind
 	for kind := 0; kind < mKinds; kind++ {
 		x, y, depth, ok := mutate(r, s, sidx, v, kind, vcfg.NilElems)
@@ -416,6 +450,9 @@ func genOps(r *vl.Rng, u *batch.UnitInfo, de bool, sidx int, key string, v *valu
 		}
 		out.Count(fmt.Sprintf("mutate.depth.%d", depth))
 		ls.pair(u, de, sidx, key, kindNames[kind], x, y)
+		if kind == mLeaf || kind == mListLen {
+			ls.pairOp("ES", u, de, sidx, key, kindNames[kind]+"-shared", x, y)
+		}
 	}
 	// (3) an independent second value
 	v2 := valgen.Gen(r, s, sidx, 1+r.Intn(3), vcfg)
@@ -466,12 +503,12 @@ func canonW(ans string) string {
 // verdict evaluates the ORACLE for one answered op: "" = fine, else (what is wrong, what was expected).
 func verdict(c *check, ans string, answers []string) (string, string) {
 	s := c.unit.Schema
-	sp := &spec{s}
+	sp := &spec{s: s}
 	rt := &idlgen.RType{Kind: idlgen.RStruct, Sidx: c.sidx}
 	switch c.what {
 	case "V":
 		return "", ""
-	case "E", "EN", "EI", "EA":
+	case "E", "ES", "EN", "EI", "EA":
 		if !c.de {
 			if ans != "nomethod" {
 				return "DeepEqual exists without gen_deep_equal", "nomethod"
@@ -483,7 +520,8 @@ func verdict(c *check, ans string, answers []string) (string, string) {
 		}
 	}
 	switch c.what {
-	case "E", "EN":
+	case "E", "ES", "EN":
+		sp.shared = c.what == "ES"
 		exp := boolStr(sp.valEq(rt, c.x, c.y))
 		if ans != exp {
 			return "DeepEqual disagrees with structural equality", exp
@@ -536,12 +574,13 @@ func classifyFail(c *check, ans string, answers []string) []string {
 	}
 	s := c.unit.Schema
 	rt := &idlgen.RType{Kind: idlgen.RStruct, Sidx: c.sidx}
+	shared := c.what == "ES"
 	switch c.what {
-	case "E", "EN":
+	case "E", "ES", "EN":
 		if ans != "true" && ans != "false" {
 			return nil
 		}
-		cl := classify(s, func(eq func(*idlgen.RType, *values.Value, *values.Value) bool) bool { return eq(rt, c.x, c.y) }, ans == "true")
+		cl := classify(s, shared, func(eq func(*idlgen.RType, *values.Value, *values.Value) bool) bool { return eq(rt, c.x, c.y) }, ans == "true")
 		if cl == nil {
 			return nil
 		}
@@ -551,12 +590,12 @@ func classifyFail(c *check, ans string, answers []string) []string {
 			if m != "true" && m != "false" {
 				return nil
 			}
-			if (&quirk{s, allDefects}).eq(rt, c.y, c.x) != (m == "true") {
+			if (&quirk{s, allDefects, shared}).eq(rt, c.y, c.x) != (m == "true") {
 				return nil
 			}
-			if (&spec{s}).valEq(rt, c.x, c.y) == (ans == "true") {
+			if (&spec{s, shared}).valEq(rt, c.x, c.y) == (ans == "true") {
 				// only the symmetry failed: explained by the swapped direction
-				cl = classify(s, func(eq func(*idlgen.RType, *values.Value, *values.Value) bool) bool { return eq(rt, c.y, c.x) }, m == "true")
+				cl = classify(s, shared, func(eq func(*idlgen.RType, *values.Value, *values.Value) bool) bool { return eq(rt, c.y, c.x) }, m == "true")
 			}
 		}
 		return cl
@@ -567,7 +606,7 @@ func classifyFail(c *check, ans string, answers []string) []string {
 		if has(c.unit.Options, "validate_set=false") {
 			return nil
 		}
-		return classify(s, func(eq func(*idlgen.RType, *values.Value, *values.Value) bool) bool { return expectWriteErr(s, rt, c.x, eq) }, ans == "err")
+		return classify(s, false, func(eq func(*idlgen.RType, *values.Value, *values.Value) bool) bool { return expectWriteErr(s, rt, c.x, eq) }, ans == "err")
 	}
 	return nil
 }
@@ -582,8 +621,8 @@ func shrinkFail(b *batch.Built, c *check, line string) (string, string, string, 
 		tries++
 		var l []string
 		switch what {
-		case "E":
-			l = []string{"E " + key + " " + x.String() + " " + y.String(), "E " + key + " " + y.String() + " " + x.String()}
+		case "E", "ES":
+			l = []string{what + " " + key + " " + x.String() + " " + y.String(), what + " " + key + " " + y.String() + " " + x.String()}
 		case "W":
 			l = []string{"W " + key + " " + x.String()}
 		default:
@@ -596,7 +635,7 @@ func shrinkFail(b *batch.Built, c *check, line string) (string, string, string, 
 		cc := *c
 		cc.x, cc.y = x, y
 		cc.mirror = -1
-		if what == "E" {
+		if what == "E" || what == "ES" {
 			cc.mirror = 1
 		}
 		msg, exp := verdict(&cc, ans[0], ans)
@@ -608,11 +647,11 @@ func shrinkFail(b *batch.Built, c *check, line string) (string, string, string, 
 	}
 	bestL, bestA := "", ""
 	switch c.what {
-	case "E":
+	case "E", "ES":
 		x, y := c.x, c.y
 		if values.Equal(x, y) {
 			x = valgen.Shrink(s, c.sidx, x, func(v *values.Value) bool {
-				l, a, ok := failing("E", v, v.Clone())
+				l, a, ok := failing(c.what, v, v.Clone())
 				if ok {
 					bestL, bestA = l, a
 				}
@@ -622,14 +661,14 @@ func shrinkFail(b *batch.Built, c *check, line string) (string, string, string, 
 		}
 		for round := 0; round < 2 && tries < 400; round++ {
 			x = valgen.Shrink(s, c.sidx, x, func(v *values.Value) bool {
-				l, a, ok := failing("E", v, y)
+				l, a, ok := failing(c.what, v, y)
 				if ok {
 					bestL, bestA = l, a
 				}
 				return ok
 			}, 100)
 			y = valgen.Shrink(s, c.sidx, y, func(v *values.Value) bool {
-				l, a, ok := failing("E", x, v)
+				l, a, ok := failing(c.what, x, v)
 				if ok {
 					bestL, bestA = l, a
 				}
